@@ -222,6 +222,40 @@ def setup(ctx, mods):
     return {'loops': loops.standard(ctx, mods)}
 
 
+def isodata_iterations(a, eps=1e-6, cap=200):
+    """Number of updates the ISODATA fixed-point iteration needs on array a (same scheme as uts.thresholding)."""
+    a = np.asarray(a, dtype=float)
+    if a.size == 0:
+        return 0
+    th = float(np.mean(a))
+    for it in range(1, cap + 1):
+        lo, hi = a[a <= th], a[a > th]
+        if lo.size == 0 or hi.size == 0:
+            return it
+        new = (float(lo.mean()) + float(hi.mean())) / 2.0
+        if abs(new - th) < eps:
+            return it
+        th = new
+    return cap
+
+
+def slow_isodata_curve(rng):
+    """Hostile selection: among a few long, unevenly sampled, noisy 1/x-type curves keep the one whose gradient makes the
+    ISODATA iteration converge most slowly (on its full gradient or on the tails the DFDT refinement revisits)."""
+    import uts.gradient as grad
+    best, score = None, -1
+    for _ in range(10):
+        n = int(rng.integers(120, 300))
+        x = np.cumsum(rng.integers(1, 12, n)).astype(float)
+        y = 50.0 / (1.0 + x / float(rng.uniform(5, 60))) + rng.normal(0.0, float(rng.uniform(0.01, 0.5)), n)
+        y = np.abs(y)
+        g = grad.cfd(x, y)
+        sc = max(isodata_iterations(g[c:]) for c in (0, 1, 2, n // 4, n // 2))
+        if sc > score:
+            best, score = np.ascontiguousarray(np.column_stack((x, y))), sc
+    return best, score
+
+
 def cases(rng, tier, shard, nshards):
     total = META['quick_cases'] if tier == 'quick' else META['thorough_cases']
     for i in range(shard_count(total, shard, nshards)):
@@ -237,6 +271,9 @@ def cases(rng, tier, shard, nshards):
         if det == 'lmethod.knee' and rng.random() < 0.25:
             # degenerate curves (all split errors equal up to rounding) are where cutoff cycles of length >= 3 concentrate
             pts, meta = gen.curve(rng, nmax=60, nmin=8, family=pick(rng, ['collinear0', 'const', 'smallint']))
+        if det in ('dfdt', 'dfdt.get_knee') and rng.random() < 0.12:
+            pts, its = slow_isodata_curve(rng)
+            meta = {'family': f'slow-isodata({"20+" if its > 20 else "<=20"} updates)'}
         if len(pts) < nmin:
             pts, meta = gen.curve(rng, nmax=80, nmin=nmin, family='mrc')
         if float(np.max(np.abs(pts))) > 1e15:
